@@ -110,7 +110,7 @@ def domain_ok(domain, support):
 
 
 def spec_strategy(min_vars=1, max_vars=6, families=None, allow_discrete=True, roles=("param", "obs", "plain", "unflagged"),
-                  allow_calc=True, require_dist_last=True):
+                  allow_calc=True, require_dist_last=True, allow_weak=False):
     from hypothesis import strategies as st
 
     fams = list(families or (CONTINUOUS + (["Poisson", "Bernoulli"] if allow_discrete else [])))
@@ -141,6 +141,11 @@ def spec_strategy(min_vars=1, max_vars=6, families=None, allow_discrete=True, ro
             else:
                 d["role"] = "plain"
                 d["support"] = draw(st.sampled_from(["real", "pos", "unit"]))
+            # a weak variable (value = calculation of an earlier variable) that carries its own distribution, e.g. residuals
+            if allow_weak and has_dist and d["family"] == "Normal" and i > 0 and draw(st.integers(0, 3)) == 0:
+                cands = [j for j, dj in enumerate(decls) if dj["support"] in ("real", "pos", "unit", "bounded") and (dj["shape"] == shape or dj["shape"] == "scalar")]
+                if cands:
+                    d["weak_of"] = ["affine", draw(st.sampled_from(cands))]
             decls.append(d)
         return {"n": n, "vars": decls, "extras": {}}
 
@@ -182,18 +187,18 @@ def low_high(d):
 
 
 def initial_values(spec):
-    vals = []
-    for d in spec["vars"]:
-        lo, hi = low_high(d)
-        v = to_support(d["z"], d["support"], lo, hi)
-        vals.append(v if d["shape"] == "vector" else v.reshape(()))
-    return vals
+    return values_from_z(spec, [d["z"] for d in spec["vars"]])
 
 
 def values_from_z(spec, zs):
-    """zs: list (per var) of unconstrained arrays -> in-support values"""
+    """zs: list (per var) of unconstrained arrays -> in-support values (weak variables are computed from their source)"""
     out = []
     for d, z in zip(spec["vars"], zs):
+        if d.get("weak_of"):
+            fn, j = d["weak_of"]
+            v = np.asarray(calc_np(fn, out[j]), dtype=np.float64)
+            out.append(np.broadcast_to(v, (len(d["z"]),)).copy() if d["shape"] == "vector" else v.reshape(()))
+            continue
         lo, hi = low_high(d)
         v = to_support(np.asarray(z, dtype=np.float64), d["support"], lo, hi)
         out.append(v if d["shape"] == "vector" else v.reshape(()))
@@ -285,6 +290,14 @@ def build(spec, per_obs_override=None, float_dtype=np.float32, auto_update=True)
             po = d["per_obs"] if per_obs_override is None else per_obs_override[i]
             dist.per_obs = bool(po)
         v = np.asarray(vals[i], dtype=float_dtype)
+        if d.get("weak_of"):
+            fn, j = d["weak_of"]
+            src = lvars[j]
+            if d["shape"] == "vector" and spec["vars"][j]["shape"] == "scalar":
+                n_ = len(d["z"])
+                v = lsl.Calc(lambda x, _f=jfn[fn], _n=n_: jnp.broadcast_to(_f(x), (_n,)), src)
+            else:
+                v = lsl.Calc(jfn[fn], src)
         if d["role"] == "both":            # the two flags are independent attributes: a variable may carry both
             var = lsl.param(v, dist, name=d["name"])
             var.observed = True
